@@ -559,6 +559,9 @@ func (x *Exec) externValue(name string, t types.Type) Value {
 	if _, ok := t.Underlying().(*types.Interface); ok {
 		return IfaceV{T: externType(name), V: Ptr{Obj: x.externObj(name)}}
 	}
+	if st, ok := t.Underlying().(*types.Struct); ok && st.NumFields() == 0 {
+		return x.zero(t) // e.g. encoding/binary.BigEndian: a stateless value, its methods run from their SSA
+	}
 	panic(unsupported(fmt.Sprintf("foreign global %s of type %s", name, t)))
 }
 
